@@ -522,6 +522,7 @@ def c08_oracle(ops, lines, slack=4):
 
     def bound():
         return 3 * math.ceil((alive() + 1) / 4) + slack
+    bhist = []              # bound() at the end of every iteration of the current run
 
     for st in steps:
         if st[0] == "op":
@@ -805,6 +806,7 @@ def c08_oracle(ops, lines, slack=4):
             if stop_seen and end != "run-returned":
                 return "iteration %d: the loop was stopped but qb_loop_run did not return" % it_no
             if end == "run-returned":
+                del bhist[:]
                 if not stop_seen:
                     return "iteration %d: qb_loop_run returned although the loop was not stopped" % it_no
                 in_run = False
@@ -831,7 +833,11 @@ def c08_oracle(ops, lines, slack=4):
                     if still:
                         must_not_sleep = name
                         break
-                b = bound()
+                # the C10 bound for an item is determined by what was queued AHEAD of it, i.e. by the population
+                # when it became eligible, not by the (smaller) population now: use the largest bound seen
+                # during the last `b` iterations (an item waiting longer than that has failed some earlier test)
+                bhist.append(bound())
+                b = max(bhist[-(max(bhist) + 3):])
                 for p in jobs:
                     for j in jobs[p]:
                         if it_no - j[1] > b + 1 and not debt.get((p, j[0])):
